@@ -383,6 +383,7 @@ type obs struct {
 	uerr     error
 	decoded  interface{}
 	m, u     int  // codec calls (counting configuration)
+	counted  bool // a counting codec was installed while marshalling
 	retained bool // the decoded value changed when the input buffer was overwritten
 }
 
@@ -467,7 +468,7 @@ func observeVia(cfg int, v interface{}, mvia, uvia int) *obs {
 	defer install(0)
 	o := &obs{}
 	o.text, o.merr = marshalVia(v, mvia)
-	o.m = counting.marshals
+	o.m, o.counted = counting.marshals, cfg >= 1
 	if o.merr != nil {
 		o.tree = jn()
 		return o
@@ -536,7 +537,13 @@ func roundCase(tag int, sel int, v interface{}, o *obs, class string) *wire.Case
 	putTree(c, o.tree)
 	c.Bool(o.uerr != nil)
 	putOpt(c, o.uerr == nil && o.decoded != nil, o.decoded)
+	if o.counted {
+		c.Int(int64(o.m)) // marshalJSON calls seen by the installed codec (judged in Coq: Model.mcalls)
+	} else {
+		c.Int(-1)
+	}
 	d := descObs(o)
+	d["marshalJSON_calls"] = o.m
 	d["input"] = fmt.Sprintf("%+v", deref(v))
 	d["input_type"] = fmt.Sprintf("%T", v)
 	c.Desc = d
